@@ -435,7 +435,7 @@ def bom_case(rep, rng):
 		rep.diff('bom-views', 'derived bill-of-materials views disagree with the product BOMs: ' + '; '.join(bad[:3]), {'bom': str(bom)}, py=bad[:8], oracle=True)
 
 
-def product_registry_case(rep, rng):
+def product_registry_case(rep, rng, drv):
 	"""Products of the network under add / remove sequences at node and at network level, in either order: a product that was added to the
 	network explicitly stays a product of the network until it is removed from the network; one that is only there because a node handles it
 	goes when the last node drops it; look-ups by index agree with the list at every step (reference: a set-based model of the two registries)."""
@@ -472,6 +472,11 @@ def product_registry_case(rep, rng):
 			want = set(local) | set().union(*[v for k_, v in at_node.items() if nodes[k_] in net.nodes])
 			got = {p.index for p in net.products if p.index >= 0}
 			bad = []
+			# the Lean model of the two registries (Model/Registry.lean; theorem explicit_product_stays) on the same operation sequence
+			mo = drv.call('registry', nodes=[1, 2], ops=ops)
+			rep.exact_cmp += 1
+			if sorted(got) != mo[-1]:
+				bad.append('network products %s, model %s' % (sorted(got), mo[-1]))
 			if got != want:
 				bad.append('network products %s, expected %s' % (sorted(got), sorted(want)))
 			if {i for i in net.product_indices if i >= 0} != got or {i for i in net.products_by_index if i >= 0} != got:
@@ -508,7 +513,7 @@ def run(rep, drv):
 		bom_case(rep, rng)
 	rngp = random.Random(rep.seed + 1800)
 	for k in range(1500 if th else 300):
-		product_registry_case(rep, rngp)
+		product_registry_case(rep, rngp, drv)
 
 
 def replay(rep, drv, doc):
